@@ -260,8 +260,14 @@ func verifC16run(p *vProfile) {
 			}
 		}
 	}
+	allA := true
 	for _, r := range a.regs {
-		verifAssume(r.accepted)
+		if !r.accepted {
+			allA = false
+		}
+	}
+	if !p.twoSided {
+		verifAssume(allA)
 	}
 	a.takeSeg(false)
 	// B: all scopes first, then the registrations in a free order
@@ -273,6 +279,17 @@ func verifC16run(p *vProfile) {
 	perm := vPermute(len(regs), verifNdInt("perm", nperm))
 	for _, i := range perm {
 		h.apply(b, regs[i:i+1])
+	}
+	allB := true
+	for _, r := range b.regs {
+		if !r.accepted {
+			allB = false
+		}
+	}
+	if p.twoSided {
+		// the block is accepted as a whole in one arrangement iff it is in the other
+		h.assert("C16.accept", allA == allB)
+		verifAssume(allA)
 	}
 	for _, r := range b.regs {
 		h.assert("C16.accept", r.accepted)
